@@ -7,6 +7,16 @@ import Proofs.Lemmas.CoreLayout
 namespace Cstruct.Compiler
 open Cstruct Cstruct.Core.Lemmas
 
+/-- the members of a field list (walked along the layout offsets) that have no bit width, a layout offset and a static
+    size and contain no structure consume exactly that size (a fact, `subSizesAux_all`; threaded through the simulation
+    as a hypothesis on the fields under the cursor) -/
+def SubSizesAux (cfg : Cfg) (data : Bytes) (start : Nat) : Fields → List (Option Nat) → Prop
+  | .nil, _ => True
+  | .cons _ _ ty bits rest, offs =>
+    (bits = none → readsStruct ty = false → ∀ o n, hdOff offs = some o → ty.size cfg = some n →
+      ∀ ctx v p, read cfg ty ctx data (start + o) = .ok (v, p) → p = start + o + n) ∧
+    SubSizesAux cfg data start rest (offs.drop 1)
+
 /-! ### Slices -/
 
 theorem slice_self (buf : Bytes) (a : Nat) : slice buf a a = [] := by
